@@ -5,6 +5,7 @@ import (
 
 	"verif/explore"
 	h "verif/harness"
+	u "verif/universe"
 )
 
 // C01 — injected values are exactly the registered constructors' outputs
@@ -59,6 +60,16 @@ func c01Units(tier string) []Unit {
 		// private to the exporting scope: available means delivered, never zero
 		add("optional-over-exported"+tag, cfg, prefixChild, alpha{scopes: []int{0, 1}, ctors: []*uFunc{pA, pB, pCb}, export: true,
 			invokes: []*uFunc{iBo, iCo, iNest}}, d, b)
+		if !def {
+			// a group decorator whose first call fails while returning values,
+			// then is retried: what it (and everyone) receives are still the
+			// registered constructors' outputs
+			for _, beh := range []u.Beh{u.BehErrVals, u.BehErr} {
+				units = append(units, Unit{Sc: &Scenario{Name: fmt.Sprintf("failing-group-decorator/%v", beh), Cfg: cfg, Plans: map[string][]u.Beh{"dGe": {beh, u.BehOK}},
+					Prefix: prefixChild, Alphabet: alpha{scopes: []int{0, 1}, ctors: []*uFunc{fG1, fG1b}, decos: []*uFunc{dGe, dG}, invokes: []*uFunc{iG, iGs}}.ops(),
+					Depth: 6, Budget: explore.Budget{Provides: 2, Decorates: 1, Invokes: 3, Rejected: 0}, Allowed: onceEach, Monitors: mon}})
+			}
+		}
 		if !q || !def {
 			add("chain3"+tag, cfg, prefixChain, alpha{scopes: []int{0, 1, 2}, ctors: []*uFunc{pA, pB}, export: true,
 				decos: []*uFunc{dA}, invokes: []*uFunc{iA, iB}}, d, b)
